@@ -263,6 +263,7 @@ func ZZ_C11_reconnect() {
 		cancelA()
 		zz.Quiesce()
 	case 2: // dies right after the new stream registered
+		zz.Tag("old_connection_dies_after_new_registration")
 		hook.afterAdd = cancelA
 	}
 	ctxB, cancelB := context.WithCancel(bg)
